@@ -624,6 +624,22 @@ func (c *Ctx) findLenGuard(info *types.Info, parents map[ast.Node]ast.Node, at a
 					}
 				}
 			}
+		case *ast.CaseClause:
+			// a later arm of a tagless switch runs only when every earlier arm's condition was false:
+			// `switch { case part == "": … default: part[:1] }`
+			if sw, ok := parents[parents[p]].(*ast.SwitchStmt); ok && sw.Tag == nil {
+				for _, st := range sw.Body.List {
+					cc := st.(*ast.CaseClause)
+					if cc == x {
+						break
+					}
+					for _, e := range cc.List {
+						if mentionsLen(e) {
+							return "earlier switch arm: " + types.ExprString(e)
+						}
+					}
+				}
+			}
 		case *ast.FuncLit, *ast.FuncDecl:
 			return ""
 		}
